@@ -6,6 +6,7 @@
 #include "vpeer.h"
 #include "vs.h"
 #include "orderrace.h"
+#include <pthread.h>
 #include <stdlib.h>
 #include <string.h>
 #include <unistd.h>
@@ -409,6 +410,124 @@ run_pub(void *arg)
 	vh_fini();
 }
 
+// ---- schedules: subscription changes racing with each other and with delivery --------------------
+// (a) two threads subscribe the SAME topic at the same time; afterwards ONE unsubscribe removes the
+//     subscription: a second unsubscribe fails with NNG_ENOENT and a matching message is not
+//     delivered (delivery iff a current subscription prefixes the body).
+// (b) a context is opened and subscribed while a matching message is being delivered to the socket:
+//     socket and context receive independent copies - modifying one does not alter the other and
+//     both can be freed.
+static nng_socket rs_sub, rs_pub;
+static int        rs_rv[2];
+static void *
+rs_subscriber(void *a)
+{
+	rs_rv[(int) (intptr_t) a] = nng_sub0_socket_subscribe(rs_sub, "ab", 2);
+	return NULL;
+}
+static nng_ctx rs_ctx;
+static int     rs_ctx_open;
+static void *
+rs_opener(void *a)
+{
+	(void) a;
+	if (nng_ctx_open(&rs_ctx, rs_sub) == 0) {
+		rs_ctx_open = 1;
+		if (nng_sub0_ctx_subscribe(rs_ctx, "", 0) != 0)
+			vs_fail("harness:rs", "ctx subscribe");
+	}
+	return NULL;
+}
+static void *
+rs_publisher(void *a)
+{
+	(void) a;
+	vh_send_nb(rs_pub, "abXYZ", 5);
+	return NULL;
+}
+static void
+run_subrace(void *arg)
+{
+	int kind = (int) (intptr_t) arg;
+	vh_init(0);
+	VH_OK(nng_sub0_open(&rs_sub));
+	VH_OK(nng_pub0_open(&rs_pub));
+	VH_OK(nng_socket_set_ms(rs_sub, NNG_OPT_RECVTIMEO, 20));
+	VH_OK(nng_listen(rs_pub, "inproc://c05race", NULL, 0));
+	VH_OK(nng_dial(rs_sub, "inproc://c05race", NULL, 0));
+	vs_settle();
+	pthread_t t[2];
+	if (kind == 0) {
+		vs_window(1);
+		pthread_create(&t[0], NULL, rs_subscriber, (void *) 0);
+		pthread_create(&t[1], NULL, rs_subscriber, (void *) 1);
+		pthread_join(t[0], NULL);
+		pthread_join(t[1], NULL);
+		vs_window(0);
+		if (rs_rv[0] != 0 || rs_rv[1] != 0)
+			vs_fail("C05:subscribe-result", "concurrent subscribes -> %d / %d", rs_rv[0],
+			    rs_rv[1]);
+		// the topic is subscribed: a matching message arrives
+		vh_send_nb(rs_pub, "ab1", 3);
+		vs_settle();
+		nng_msg *m;
+		if (nng_recvmsg(rs_sub, &m, NNG_FLAG_NONBLOCK) != 0)
+			vs_fail("C05:missed", "subscribed twice to 'ab', message 'ab1' not delivered");
+		nng_msg_free(m);
+		int u1 = nng_sub0_socket_unsubscribe(rs_sub, "ab", 2);
+		int u2 = nng_sub0_socket_unsubscribe(rs_sub, "ab", 2);
+		if (u1 != 0)
+			vs_fail("C05:unsubscribe-result", "first unsubscribe -> %s", nng_strerror(u1));
+		vh_send_nb(rs_pub, "ab2", 3);
+		vs_settle();
+		if (nng_recvmsg(rs_sub, &m, NNG_FLAG_NONBLOCK) == 0) {
+			nng_msg_free(m);
+			vs_fail("C05:delivered-without-subscription",
+			    "topic 'ab' was subscribed by two threads at once and then unsubscribed "
+			    "(result 0): 'ab2' was still delivered (second unsubscribe -> %s)",
+			    u2 ? nng_strerror(u2) : "success");
+		}
+		if (u2 != NNG_ENOENT)
+			vs_fail("C05:unsubscribe-result",
+			    "second unsubscribe of 'ab' -> %s, want NNG_ENOENT",
+			    u2 ? nng_strerror(u2) : "success");
+		vs_outcome("subsub");
+	} else {
+		VH_OK(nng_sub0_socket_subscribe(rs_sub, "", 0));
+		rs_ctx_open = 0;
+		vs_window(1);
+		pthread_create(&t[0], NULL, rs_opener, NULL);
+		pthread_create(&t[1], NULL, rs_publisher, NULL);
+		pthread_join(t[0], NULL);
+		pthread_join(t[1], NULL);
+		vs_settle();
+		vs_window(0);
+		nng_msg *ms = NULL, *mc = NULL;
+		int      r1 = nng_recvmsg(rs_sub, &ms, NNG_FLAG_NONBLOCK);
+		int      r2 = rs_ctx_open ? nng_ctx_recvmsg(rs_ctx, &mc, NNG_FLAG_NONBLOCK) : -1;
+		if (r1 != 0)
+			vs_fail("C05:missed", "socket subscribed to everything did not get the message");
+		if (r2 == 0) {
+			if (ms == mc)
+				vs_fail("C05:shared-message",
+				    "socket and context were handed the same message object");
+			// independent copies: scribbling over one leaves the other intact
+			memset(nng_msg_body(ms), 'z', nng_msg_len(ms));
+			if (nng_msg_len(mc) != 5 || memcmp(nng_msg_body(mc), "abXYZ", 5) != 0)
+				vs_fail("C05:altered", "context's copy changed when the socket's was modified");
+			nng_msg_free(mc);
+		}
+		nng_msg_free(ms);
+		vs_outcome("ctxopen ctxgot=%d", r2 == 0);
+		if (rs_ctx_open)
+			nng_ctx_close(rs_ctx);
+	}
+	vs_nontrivial();
+	nng_socket_close(rs_sub);
+	nng_socket_close(rs_pub);
+	vh_fini();
+}
+
 static void
 explore(const char *name, void (*fn)(void *), void *arg)
 {
@@ -488,6 +607,19 @@ main(int argc, char **argv)
 	vx_note("alphabet", "%d letters: sub/unsub(sock|ctx, topic) recv recvbuf "
 	                    "prefnew pub(body); depth %d; 6 seeded start states",
 	    NAL, g_depth);
+	for (int k = 0; k < 2; k++) {
+		vx_cfg c2;
+		memset(&c2, 0, sizeof(c2));
+		c2.prop     = "C05";
+		c2.scenario = k ? "race-ctxopen-delivery" : "race-subscribe-subscribe";
+		c2.run      = run_subrace;
+		c2.arg      = (void *) (intptr_t) k;
+		c2.budget[VB_PREEMPT] = vx_is_thorough() ? 2 : 1;
+		c2.budget[VB_SWITCH]  = 2;
+		c2.budget[VB_ENV]     = -1;
+		c2.total              = 2;
+		vx_explore(&c2, NULL);
+	}
 	{
 		static const orc_arg OR[] = { { "C05", "pubsub", nng_pub0_open, nng_sub0_open, 1 }, { "C05", "xpub-xsub", nng_pub0_open_raw, nng_sub0_open_raw, 0 } };
 		for (int i = 0; i < 2; i++)
